@@ -129,6 +129,10 @@ class Public_key(object):
         self.point = point
         n = generator.order()
         p = self.curve.p()
+        if point.x() is None or point.y() is None:
+            raise InvalidPointError(
+                "The public point is the point at infinity."
+            )
         if not (0 <= point.x() < p) or not (0 <= point.y() < p):
             raise InvalidPointError(
                 "The public point has x or y out of range."
